@@ -224,7 +224,13 @@ class RemoteProxy(BaseProxy):
         # _handle_remote_requests calls stop() itself when it fails; a
         # task cannot wait for itself.
         if asyncio.current_task() is not self._reader_task:
-            await self._reader_task
+            # No further request can arrive on the closed channel, but
+            # the reader task only ends by itself if the channel has
+            # noticed the end of the connection. It does not if its
+            # receiver failed before (e.g. on a reply to a request
+            # that was cancelled because another simulator failed).
+            self._reader_task.cancel()
+            await asyncio.gather(self._reader_task, return_exceptions=True)
 
 
 def extract_version(meta: Meta) -> List[int]:
